@@ -26,12 +26,21 @@ func Index(json any) any {
 	classIndex := make(map[string][]string)
 	nodeIndex := make(types.ObjectMap)
 
-	g := json.(types.ObjectMap)["@graph"]
-	nodes := g.([]any)
+	// a document without nodes flattens to an empty list instead of a map holding a @graph
+	var nodes []any
+	if doc, isMap := json.(types.ObjectMap); isMap {
+		nodes, _ = doc["@graph"].([]any)
+	}
 
 	for _, nn := range nodes {
-		n := nn.(types.ObjectMap)
-		id := n["@id"].(string)
+		n, isNode := nn.(types.ObjectMap)
+		if !isNode {
+			continue
+		}
+		id, hasId := n["@id"].(string)
+		if !hasId {
+			continue
+		}
 		classes := n["@type"]
 		nodeIndex[id] = n
 		switch cc := classes.(type) {
@@ -44,7 +53,10 @@ func Index(json any) any {
 			classIndex[cc] = acc
 		case []any:
 			for _, cc := range classes.([]any) {
-				c := cc.(string)
+				c, isString := cc.(string)
+				if !isString {
+					continue
+				}
 				acc, ok := classIndex[c]
 				if !ok {
 					acc = make([]string, 0)
@@ -60,7 +72,10 @@ func Index(json any) any {
 	// Build lexical index
 	lexicalIndex := make(types.ObjectMap)
 	for _, sourceMapId := range classIndex["http://a.ml/vocabularies/document-source-maps#SourceMap"] {
-		sourceMap := nodeIndex[sourceMapId].(types.ObjectMap)
+		sourceMap, isNode := nodeIndex[sourceMapId].(types.ObjectMap)
+		if !isNode {
+			continue
+		}
 		lexicalContainer := sourceMap["http://a.ml/vocabularies/document-source-maps#lexical"] // can be map or array of maps
 		handleSingleOrMultipleNodes(&lexicalContainer, func(node *types.ObjectMap) {
 			addLexicalEntryFrom(node, &nodeIndex, &lexicalIndex, locationIndex)
@@ -75,8 +90,19 @@ func Index(json any) any {
 }
 
 func addLexicalEntryFrom(node, nodeIndex, lexicalIndex *types.ObjectMap, locIndex *LocationIndex) {
-	lexicalEntry := (*nodeIndex)[(*node)["@id"].(string)].(types.ObjectMap)
-	id := lexicalEntry["http://a.ml/vocabularies/document-source-maps#element"].(string)
+	// entries that are not links to a node, or whose element is not a plain string, carry no usable position
+	entryId, isLink := (*node)["@id"].(string)
+	if !isLink {
+		return
+	}
+	lexicalEntry, isNode := (*nodeIndex)[entryId].(types.ObjectMap)
+	if !isNode {
+		return
+	}
+	id, isString := lexicalEntry["http://a.ml/vocabularies/document-source-maps#element"].(string)
+	if !isString {
+		return
+	}
 	value := lexicalEntry["http://a.ml/vocabularies/document-source-maps#value"]
 
 	/**
@@ -97,8 +123,8 @@ func addLexicalEntryFrom(node, nodeIndex, lexicalIndex *types.ObjectMap, locInde
 func createLocationIndex(nodeIndex *types.ObjectMap, classIndex *map[string][]string) *LocationIndex {
 	sourceInformation := (*classIndex)["http://a.ml/vocabularies/document#BaseUnitSourceInformation"]
 	if len(sourceInformation) > 0 {
-		sourceInformationNode := (*nodeIndex)[sourceInformation[0]].(types.ObjectMap)
-		defaultLocation := sourceInformationNode["http://a.ml/vocabularies/document#rootLocation"].(string)
+		sourceInformationNode, _ := (*nodeIndex)[sourceInformation[0]].(types.ObjectMap)
+		defaultLocation, _ := sourceInformationNode["http://a.ml/vocabularies/document#rootLocation"].(string)
 		additionalLocations := sourceInformationNode["http://a.ml/vocabularies/document#additionalLocations"]
 		idToLocation := make(types.StringMap)
 		handleSingleOrMultipleNodes(&additionalLocations, func(node *types.ObjectMap) {
@@ -112,11 +138,23 @@ func createLocationIndex(nodeIndex *types.ObjectMap, classIndex *map[string][]st
 }
 
 func addElementsOfLoc(node *types.ObjectMap, nodeIndex *types.ObjectMap, idToLocation *types.StringMap) {
-	locationNode := (*nodeIndex)[(*node)["@id"].(string)].(types.ObjectMap)
-	locationValue := locationNode["http://a.ml/vocabularies/document#location"].(string)
+	locationId, isLink := (*node)["@id"].(string)
+	if !isLink {
+		return
+	}
+	locationNode, isNode := (*nodeIndex)[locationId].(types.ObjectMap)
+	if !isNode {
+		return
+	}
+	locationValue, isString := locationNode["http://a.ml/vocabularies/document#location"].(string)
+	if !isString {
+		return
+	}
 	elementIds := locationNode["http://a.ml/vocabularies/document#elements"]
 	handleSingleOrMultipleNodes(&elementIds, func(node *types.ObjectMap) {
-		(*idToLocation)[(*node)["@id"].(string)] = locationValue
+		if elementId, isLink := (*node)["@id"].(string); isLink {
+			(*idToLocation)[elementId] = locationValue
+		}
 	})
 }
 
